@@ -103,7 +103,7 @@ fn encode(s: &MState, enc: Enc, halted: bool) -> Vec<u8> {
                 sna48(s)
             }
         }
-        Enc::Szx { compressed, order, unknown, minor } => szx(s, &SzxOpts { compressed, order, unknown_chunks: unknown, halted, minor, ..SzxOpts::default() }),
+        Enc::Szx { compressed, order, unknown, minor } => szx(s, &SzxOpts { compressed, order, unknown_chunks: unknown, big_unknown: unknown, halted, minor, ..SzxOpts::default() }),
     }
 }
 
@@ -784,14 +784,28 @@ fn model_mismatch(ctx: &Ctx) {
 fn scr_files(ctx: &Ctx) {
     for m128 in [false, true] {
         for k in 0..4usize {
-            for rx in [Rx::Fresh, Rx::Halted, Rx::MidPrefix, Rx::Other] {
+            // the last two receivers have interrupts enabled (IM 1, ROM handler): the machine the
+            // picture is loaded into keeps running its interrupt handler once per frame
+            for (rx, ei) in [(Rx::Fresh, false), (Rx::Halted, false), (Rx::MidPrefix, false), (Rx::Other, false), (Rx::Fresh, true), (Rx::Halted, true)] {
                 let content: Vec<u8> = (0..6912).map(|a| if a < 6144 { ((a * 17 + k * 31) % 256) as u8 } else { ((a * 29 + k) % 128) as u8 }).collect();
                 let mut e = receiver(m128, rx, 0);
+                if ei {
+                    if m128 {
+                        // the 48 BASIC ROM: its interrupt routine needs no initialised system variables
+                        rig::cpu_out(&mut e, OUTCODE, 0x7FFD, 0x10);
+                    }
+                    let cpu = e.verif_cpu();
+                    cpu.regs.set_iff1(true);
+                    cpu.regs.set_iff2(true);
+                    cpu.set_im(1);
+                    cpu.regs.set_sp(0xFF00);
+                }
                 let r = std::panic::catch_unwind(std::panic::AssertUnwindSafe(|| e.load_screen(Screen::Scr(VAsset::new(scr(&content)).chunked([0usize, 1, 3, 128][(content[0] as usize) % 4])))));
                 ctx.add_eval(1);
-                let case = json!({"kind":"scr","m128":m128,"k":k,"receiver":format!("{:?}", rx)});
+                let case = json!({"kind":"scr","m128":m128,"k":k,"receiver":format!("{:?}", rx),"interrupts_enabled":ei});
+                let rx = format!("{:?}{}", rx, if ei { "+EI" } else { "" });
                 if !matches!(r, Ok(Ok(()))) {
-                    ctx.violation("C14:scr:load-failed", &format!("well-formed SCR rejected or panicked into receiver {:?}", rx), case);
+                    ctx.violation("C14:scr:load-failed", &format!("well-formed SCR rejected or panicked into receiver {}", rx), case);
                     continue;
                 }
                 let shown_bank = if m128 {
@@ -807,14 +821,15 @@ fn scr_files(ctx: &Ctx) {
                     ctx.violation("C14:scr:memory", "display memory does not hold the SCR bytes", case.clone());
                 }
                 e.set_debug_interface(rig::VDebug::at(&[]));
-                for _ in 0..3 {
+                let nframes = if ei { 40 } else { 3 };
+                for _ in 0..nframes {
                     let _ = e.emulate_frames(Duration::from_secs(100));
                 }
                 let pix = &rig::canvas(&e).pix;
                 if e.verif_ram_bank(shown_bank)[..6912] != content[..] {
-                    ctx.violation(&format!("C14:scr:memory-changed-while-showing:{:?}", rx), &format!("receiver {:?}: the display memory changed during the 3 frames after load_screen", rx), case.clone());
+                    ctx.violation(&format!("C14:scr:memory-changed-while-showing:{}", rx), &format!("receiver {}: the display memory changed during the {} frames after load_screen", rx, nframes), case.clone());
                 } else if pix[..] != decode_screen(&content, false)[..] && pix[..] != decode_screen(&content, true)[..] {
-                    ctx.violation(&format!("C14:scr:picture:{:?}", rx), &format!("receiver {:?}: the picture after load_screen is not the decode of the SCR file", rx), case);
+                    ctx.violation(&format!("C14:scr:picture:{}", rx), &format!("receiver {}: the picture after load_screen is not the decode of the SCR file", rx), case);
                 }
                 ctx.outcome(fnv(pix) ^ k as u64);
             }
@@ -850,7 +865,7 @@ pub fn run(tier: Tier, seed: u64, replay: Option<String>) -> i32 {
     ctx.sample(json_case(true, 3, Enc::Szx { compressed: true, order: 4, unknown: false, minor: 4 }, Rx::Locked, "absolute"));
     ctx.note("not_judged", json!("which of the two published conventions (PC on the HALT / after it) an SZX with HALTED uses; IFF1 and AY/hidden latches for SNA (not carried); mouse presence is checked only through SZX"));
     ctx.finish(
-        "abstract states (registers incl. alternates, IM, I/R boundary values, border, six paging values incl. shadow screen and lock, position-coded RAM in all banks, pictures in both screens, AY register file) written by the spec-based writers as SNA, SZX stored, SZX zlib, SZX in 6 chunk orders, SZX with unknown chunks interleaved, v1.4/1.5; loaded through assets returning short reads of rotating sizes {whole,1,2,3,7,127,128,129} into seven receivers (fresh, halted, mid FD prefix, paging locked, everything different incl. AY, ROM running mid-frame, paging latch already equal to the file's byte); absolute oracle: registers, IFFs, IM, HALT/prefix/EI latches cleared, border, paging latch+lock+map, every RAM bank (by bank and as the CPU sees it at every address of 4000..FFFF), AY selected register and all 16 registers read back through the ports, picture after 3 frames = decode of the file's displayed screen, and of the other screen after the program flips bit 3; differential: all encodings x receivers of one state end in the same digest of registers, RAM and both frame buffers; audible AY state vs a port-written reference, and a one-shot envelope restarted by loading the same file again after it has decayed; 48K SZX with/without the AY-interface flag into 48K machines with the AY on/off; HALTED (both PC conventions, also with a 76h byte in front of the HALT; exactly one interrupt must release it and return behind the HALT) and EILAST; files for the other model; SCR into four receivers. distinct_nontrivial = loads",
+        "abstract states (registers incl. alternates, IM, I/R boundary values, border, six paging values incl. shadow screen and lock, position-coded RAM in all banks, pictures in both screens, AY register file) written by the spec-based writers as SNA, SZX stored, SZX zlib, SZX in 6 chunk orders, SZX with unknown chunks interleaved (one of them 70001 bytes long), v1.4/1.5; loaded through assets returning short reads of rotating sizes {whole,1,2,3,7,127,128,129} into seven receivers (fresh, halted, mid FD prefix, paging locked, everything different incl. AY, ROM running mid-frame, paging latch already equal to the file's byte); absolute oracle: registers, IFFs, IM, HALT/prefix/EI latches cleared, border, paging latch+lock+map, every RAM bank (by bank and as the CPU sees it at every address of 4000..FFFF), AY selected register and all 16 registers read back through the ports, picture after 3 frames = decode of the file's displayed screen, and of the other screen after the program flips bit 3; differential: all encodings x receivers of one state end in the same digest of registers, RAM and both frame buffers; audible AY state vs a port-written reference, and a one-shot envelope restarted by loading the same file again after it has decayed; 48K SZX with/without the AY-interface flag into 48K machines with the AY on/off; HALTED (both PC conventions, also with a 76h byte in front of the HALT; exactly one interrupt must release it and return behind the HALT) and EILAST; files for the other model; SCR into four receivers. distinct_nontrivial = loads",
         false,
         &["writers in formats.rs follow the published SNA/SZX layouts, not the loaders"],
     )
